@@ -92,6 +92,8 @@ def iter_source(fv, target, it, st, spec):
             mt = mt.strip_opt()
         if mt.is_map:
             ks = P.keys(m.term)
+            if not spec:
+                fv.note_term(st, ks)
             kty, vty = mt.args
             kind = it.func.attr
 
@@ -109,6 +111,8 @@ def iter_source(fv, target, it, st, spec):
                            ety=kty, key_map=m.term if kind == 'items' else None)
     v = fv.ev(it, st, spec)
     seq, ety = fv.iter_seq(v, it, st, spec)
+    if not spec:
+        fv.note_term(st, seq)
 
     def bind(i):
         out = {}
@@ -228,9 +232,15 @@ def eval_comp(fv, node, st, spec, kind):
                                    patterns=[P.at(r, j), cm(j)]))
             facts.append(z3.ForAll([j, j2], z3.Implies(z3.And(0 <= j, j < j2, j2 < P.slen(r)), cm(j) < cm(j2)),
                                    patterns=[z3.MultiPattern(cm(j), cm(j2))]))
+            # explicit instance at position 0 (emptiness tests on filtered lists are common)
+            c0 = z3.substitute(cond_i, (i, cm(z3.IntVal(0))))
+            e0 = z3.substitute(box(elt_i), (i, cm(z3.IntVal(0))))
+            facts.append(z3.Implies(P.slen(r) > 0, z3.And(0 <= cm(z3.IntVal(0)), cm(z3.IntVal(0)) < L, c0,
+                                                          P.at(r, z3.IntVal(0)) == e0)))
             facts.append(z3.ForAll([i], z3.Implies(z3.And(0 <= i, i < L, cond_i),
                                                    z3.And(0 <= ci(i), ci(i) < P.slen(r), cm(ci(i)) == i)),
                                    patterns=[ci(i)] + ([P.at(src.plain_seq, i)] if src.plain_seq is not None else [])))
+        facts.extend(fv.deep_facts(r, T.Seq(ety)))
         for f in facts:
             fv.add_fact(st, f)
         return SV(r, T.Seq(ety))
@@ -239,13 +249,17 @@ def eval_comp(fv, node, st, spec, kind):
         r = z3.Const('comp!%d' % n, P.V)
         facts = [P.tag(r) == P.TAG_SET]
         y = z3.Const('y!c%d' % n, P.V)
-        simple = src.plain_seq is not None and isinstance(node.elt, ast.Name) and isinstance(g.target, ast.Name) \
-            and node.elt.id == g.target.id
+        tnames = target_names(g.target)
+        simple = src.plain_seq is not None and isinstance(node.elt, ast.Name) and node.elt.id == tnames[0] \
+            and (isinstance(g.target, ast.Name) or (src.key_map is not None and len(tnames) == 2))
         cond_i, elt_i = at_index(i, conds_and(lambda b: fv.ev(node.elt, st, spec)))
         ety = elt_i.ty
         if simple:
             # element is the loop variable itself: smem(r,y) <=> mem(seq,y) /\ cond[y]
-            binds = {g.target.id: unbox(y, src.ety)}
+            binds = {tnames[0]: unbox(y, src.ety)}
+            if src.key_map is not None and len(tnames) == 2:
+                vty = src.bind(i)[tnames[1]].ty
+                binds[tnames[1]] = unbox(P.get(src.key_map, y), vty)
             fv.bound_env.append(binds)
             fv.binders.append(([y], P.mem(src.plain_seq, y)))
             try:
@@ -266,6 +280,7 @@ def eval_comp(fv, node, st, spec, kind):
                                    patterns=[P.smem(r, y)]))
             facts.append(z3.ForAll([i], z3.Implies(z3.And(0 <= i, i < L, cond_i), P.smem(r, box(elt_i))),
                                    patterns=[box(elt_i)] if not z3.is_var(box(elt_i)) and not z3.is_const(box(elt_i)) else []))
+        facts.extend(fv.deep_facts(r, T.Set(ety)))
         for f in facts:
             fv.add_fact(st, f)
         return SV(r, T.Set(ety))
@@ -318,6 +333,7 @@ def eval_comp(fv, node, st, spec, kind):
                           patterns=[P.at(ks, j)]),
                 z3.ForAll([j, j2], z3.Implies(z3.And(0 <= j, j < j2, j2 < P.slen(ks)), cm(j) < cm(j2)),
                           patterns=[z3.MultiPattern(cm(j), cm(j2))]))))
+        facts.extend(fv.deep_facts(r, T.Map(kty, val.ty)))
         for f in facts:
             fv.add_fact(st, f)
         return SV(r, T.Map(kty, val.ty))
